@@ -303,7 +303,38 @@ def r_smt_stack_is_the_problem(ctx):
     driver.r_scoped_assert(ctx)
 
 
-C16_RULES = [r_df_columns, r_excel_coord, r_smt_same_handle, r_json_fields, r_smt_stack_is_the_problem]
+def r_json_read(ctx):
+    """'task and cost function definitions survive a JSON round trip', reader side: add_from_json hands the whole document,
+    unchanged, to the validator of the class its "type" entry names - no entry is dropped, defaulted or rewritten on the way"""
+    where = "SchedulingProblem.add_from_json"
+    fn = ctx.project.method("SchedulingProblem", "add_from_json")[1]
+    doc = S(fn.args.args[1].arg)
+    parsed = [("call", "json.loads", (doc,), ())]
+    runs = runs_of(ctx, Entry("method", cls="SchedulingProblem", name="add_from_json"))
+    fails_closed(ctx, "R-JSON-READ", runs)
+    n = 0
+    for r in runs:
+        if r.rejected:
+            continue
+        n += 1
+        rv = r.retval
+        ok = isinstance(rv, tuple) and rv[0] == "mcall" and len(rv[3]) == 1 and not rv[4]
+        if ok:
+            recv, meth, arg = rv[1], rv[2], rv[3][0]
+            ok_cls = recv[0] == "idx" and recv[2] in [("idx", p_, K("type")) for p_ in parsed]
+            ok_arg = (meth == "model_validate_json" and arg == doc) or (meth == "model_validate" and arg in parsed)
+            ok = ok_cls and ok_arg
+        if ok:
+            ctx.ok("R-JSON-READ", f"{where}: the whole document goes to `{meth}` of the class named by its \"type\" entry")
+        else:
+            ctx.violation("R-JSON-READ", where, "the document is validated whole and unchanged",
+                          (f"returns <class>.{rv[2]}({', '.join(show(a)[:200] for a in rv[3])})" if isinstance(rv, tuple) and rv[0] == "mcall" else f"returns {rv}") + (f": what reaches the validator is not the document "
+                          f"that was exported (entries dropped or rewritten take their default on re-import)"),
+                          f"processscheduler/problem.py:{fn.lineno}")
+    ctx.floor("R-JSON-READ", "accepting paths of add_from_json", n, 1)
+
+
+C16_RULES = [r_df_columns, r_excel_coord, r_smt_same_handle, r_json_fields, r_smt_stack_is_the_problem, r_json_read]
 
 
 # ---------------------------------------------------------------------------
@@ -481,4 +512,53 @@ def r_bar_is_start_to_end(ctx):
     solution.r_extract(ctx)
 
 
-C17_RULES = [r_gantt, r_gantt_buffer, r_bar_is_start_to_end]
+def r_presence_test(ctx):
+    """'rendering succeeds for every valid solution': the renderers reject their argument with `if not solution: raise`.
+    That is a presence test (solve() hands back False when there is no schedule) only as long as a solution object is always
+    true: no class the parameter can hold defines __bool__ or __len__ (python's truth protocol), else a valid solution for
+    which that method gives False / 0 is refused"""
+    proj = ctx.project
+    n = 0
+    for m in proj.modules.values():
+        for fn in [x for x in ast.walk(m.tree) if isinstance(x, ast.FunctionDef)]:
+            typed = {}
+            for a in fn.args.args + fn.args.kwonlyargs:
+                if a.annotation is None:
+                    continue
+                for cname in P.type_classes(P.parse_type(a.annotation)):
+                    if cname in proj.classes:
+                        typed.setdefault(a.arg, []).append(cname)
+            if not typed:
+                continue
+            for node in ast.walk(fn):
+                tests = []
+                if isinstance(node, (ast.If, ast.While, ast.IfExp, ast.Assert)):
+                    tests.append(node.test)
+                for t in tests:
+                    parts = [t]
+                    while parts:
+                        q = parts.pop()
+                        if isinstance(q, ast.UnaryOp) and isinstance(q.op, ast.Not):
+                            parts.append(q.operand)
+                        elif isinstance(q, ast.BoolOp):
+                            parts.extend(q.values)
+                        elif isinstance(q, ast.Name) and q.id in typed:
+                            n += 1
+                            bad = []
+                            for cname in typed[q.id]:
+                                for k in [proj.cls(cname)] + proj.subclasses(cname):
+                                    for dunder in ("__bool__", "__len__"):
+                                        owner, _fn = k.find_method(dunder)
+                                        if owner is not None:
+                                            bad.append(f"{k.name}.{dunder}")
+                            if bad:
+                                ctx.violation("R-PRESENCE-TEST", f"{m.short}.{fn.name}", f"truth test of `{q.id}` is a presence test",
+                                              f"`{ast.unparse(t)}` tests an argument declared {typed[q.id]} for truth, and {sorted(set(bad))} "
+                                              f"make a valid object false (empty / zero): it is treated as absent",
+                                              f"{proj.relpath(m.path)}:{t.lineno}")
+                            else:
+                                ctx.ok("R-PRESENCE-TEST", f"{m.short}.{fn.name}: `{ast.unparse(t)}` - {typed[q.id]} objects are always true")
+    ctx.floor("R-PRESENCE-TEST", "truth tests of arguments declared with a model class", n, 2)
+
+
+C17_RULES = [r_gantt, r_gantt_buffer, r_bar_is_start_to_end, r_presence_test]
